@@ -1,7 +1,12 @@
-(* C04 x C02 — gen_verifies: every output of the model of the real code generator (Model/GenF1.v)
-   is accepted by the certificate checker check_fn, with the annotation annot_ofL built by
-   structural recursion on the expression (Model/GenAnnot.v).  Induction on the expression, all
-   nestings. *)
+(* C04 x C02 — gen_verifies for programs WITH for loops (round 7): every output of the model of the real code
+   generator (Model/GenF1.v) for an F1 program without break / continue is accepted by the certificate
+   checker check_fn, with the annotation annot_ofL built by structural recursion on the expression.
+   annL = GenAnnot.ann + the case of GenerateForLoop (for_ann); nj = "no break / continue anywhere".
+   The helper lemmas of Proofs/GenVerifies.v (P_begin P_sb P_sc P_cond P_letseq P_inits P_puts P_defset
+   P_scope P_let_seq P_let_par) are re-proved here for annL / nj (same proofs: their induction hypothesis
+   now also covers loops inside every sub-form); new: for_good (the 21 instruction sites of the loop
+   layout around four abstract sub-fragments), gen_for_eq, P_for, lf_nj.
+   Still open (break / continue): see Properties/C04.v at gen_verifies_F1_loops_partial. *)
 From Coq Require Import ZArith Bool List Lia.
 Require Import ZV.Model.RefSem.
 Require ZV.Model.GenF1.
@@ -274,7 +279,7 @@ Section Code.
     sh (S (glen c n e)) (ann_begin annL c (n + GenF1.nloops e) (e2 :: r) s).
   Proof. reflexivity. Qed.
 
-  (* every expression of the loop-free fragment has code *)
+  (* every expression of the jump-free fragment has code *)
   Lemma NE_all : forall e c n, GenF1.f1 e = true -> nj e = true -> GenF1.gen c n e <> [].
   Proof.
     induction e using expr_ind_nested; intros c n Hf Hl; simpl in Hf, Hl; try discriminate; try (simpl; discriminate).
@@ -1015,7 +1020,7 @@ Section Code.
         eapply (ok_simple p _ GenF1.IRemoveScope []); [rewrite E2; exact Hat|reflexivity|reflexivity|apply arun_down|].
         simpl length. rewrite !app_length, HK. fold Li Lb. replace (S (p + S (Li + (K + Lb)))) with (p + (Li + K + Lb + 2)) by lia. exact Hex.
   Qed.
-  (* ---- all expressions of the loop-free fragment ---- *)
+  (* ---- all expressions of the jump-free fragment ---- *)
   Ltac leaf :=
     let c := fresh in let n := fresh in let p := fresh in let s := fresh in
     intros c n p s _ _ Hat Hcov Hex i s' Hin Hlt; simpl in Hin; destruct Hin as [E|[]]; inversion E; subst i s';
@@ -1402,7 +1407,7 @@ Section Code.
       now apply P_scope.
     - (* EFor *)
       now apply P_for.
-  Qed.   (* EFor / EBreak / ECont are outside the loop-free fragment: nj = false, closed by discriminate *)
+  Qed.   (* EBreak / ECont are outside the jump-free fragment: nj = false, closed by discriminate *)
 (* END-SECTION *)
 End Code.
 
@@ -1435,7 +1440,7 @@ Proof.
   - apply IH. intros p sts st Hn Hin. specialize (H (S p) sts st Hn Hin). now rewrite Nat.add_succ_r in H.
 Qed.
 
-(* gen_verifies for the loop-free fragment F0: literals, variables, calls (one instruction), begin,
+(* gen_verifies for the jump-free fragment (F0 + for loops in any nesting): literals, variables, calls (one instruction), begin,
    cond, and/or, def/set, let, letseq, newScope, in every nesting *)
 Theorem gen_verifies_loops_lemma : forall fi e, GenF1.f1 e = true -> nj e = true ->
   check_fn (to_bytecode (GenF1.gen GenF1.top 0 e)) fi true 0 (annot_ofL e) = true.
@@ -1462,7 +1467,7 @@ Proof.
     specialize (Hgood p st Hin2 Hp). exact Hgood.
 Qed.
 
-(* generator + machine, unbounded: the code that the model generator emits for ANY loop-free program,
+(* generator + machine, unbounded: the code that the model generator emits for ANY jump-free program (loops included),
    run by the abstract machine from the interpreter at rest along any path to its end, leaves the
    interpreter at rest *)
 Theorem loops_leave_nothing_behind_lemma : forall fi e s s',
@@ -1473,4 +1478,22 @@ Theorem loops_leave_nothing_behind_lemma : forall fi e s s',
 Proof.
   intros fi e s s' Hf Hl Hr Hp Hrun Hend.
   eapply toplevel_rest_lemma; eauto. now apply gen_verifies_loops_lemma.
+Qed.
+
+(* the loop-free fragment of GenVerifies.v is part of the jump-free one *)
+Lemma lf_nj : forall e, lf e = true -> nj e = true.
+Proof.
+  induction e using expr_ind_nested; intros Hl; simpl in Hl |- *; try reflexivity; try discriminate.
+  - rewrite forallb_forall in Hl |- *. rewrite Forall_forall in H. auto.
+  - apply andb_prop in Hl as [Ha Hd]. rewrite (IHe Hd), andb_true_r.
+    rewrite forallb_forall in Ha |- *. rewrite Forall_forall in H. intros [t b] Hin. specialize (Ha _ Hin). specialize (H _ Hin).
+    simpl in *. apply andb_prop in Ha as [H1 H2]. destruct H as [Ht Hb]. now rewrite (Ht H1), (Hb H2).
+  - rewrite forallb_forall in Hl |- *. rewrite Forall_forall in H. auto.
+  - rewrite forallb_forall in Hl |- *. rewrite Forall_forall in H. auto.
+  - auto.
+  - auto.
+  - apply andb_prop in Hl as [Hb Hy]. apply andb_true_intro. split.
+    + rewrite forallb_forall in Hb |- *. rewrite Forall_forall in H. intros xb Hin. apply (H _ Hin). now apply Hb.
+    + rewrite forallb_forall in Hy |- *. rewrite Forall_forall in H0. auto.
+  - rewrite forallb_forall in Hl |- *. rewrite Forall_forall in H. auto.
 Qed.
